@@ -46,7 +46,7 @@ def run(run):
         # the same cells in ascending and in descending numeric order (an input that "looks sorted" must not take a different path)
         reqs.append("compact " + (cg.fmt(sorted(cells)) if (k < 3 or rng.random() < 0.5) else cg.fmt(cells[:1]))); meta.append((k, "S"))
         reqs.append("compact " + (cg.fmt(sorted(alt, reverse=True)) if (k < 3 or rng.random() < 0.3) else cg.fmt(cells[:1]))); meta.append((k, "D"))
-    impl, model = core.both(run, reqs, "compact", canon=lambda q, a: ("ok " + cg.fmt(sorted(cg.parse_list(a)))) if a.startswith("ok ") else a)
+    impl, model = core.both(run, reqs, "compact", canon=lambda q, a: ("ok " + cg.fmt(sorted(cg.parse_list(a)))) if a.startswith("ok ") else core.default_canon(q, a))
     again, ameta = [], []
     res = {}
     for (k, tag), q, a in zip(meta, reqs, impl):
@@ -78,7 +78,7 @@ def run(run):
                     j = {"B": 1, "S": 2, "D": 3}[other]
                     run.violation("two non-overlapping inputs covering the same region compact to different sets", [reqs[4 * k][:400], reqs[4 * k + j][:400]],
                                   f"{impl[4 * k][:150]} / {impl[4 * k + j][:150]}")
-    ai, am = core.both(run, again, "compact-again", canon=lambda q, a: ("ok " + cg.fmt(sorted(cg.parse_list(a)))) if a.startswith("ok ") else a)
+    ai, am = core.both(run, again, "compact-again", canon=lambda q, a: ("ok " + cg.fmt(sorted(cg.parse_list(a)))) if a.startswith("ok ") else core.default_canon(q, a))
     for (k, tag), q, a in zip(ameta, again, ai):
         run.evaluations += 1
         out = cg.parse_list(a)
